@@ -80,8 +80,13 @@ def o_unfold(case):
     f = B.fold(u, m, x.shape)
     same_bits(f, x0, "fold/roundtrip")
     # fold must also accept a list shape and an independent unfolded copy
-    f2 = B.fold(np.array(ref.unfold(x0, m)), m, list(x.shape))
+    shape_list = list(x.shape)
+    f2 = B.fold(np.array(ref.unfold(x0, m)), m, shape_list)
     same_bits(f2, x0, "fold/inverse-of-reference")
+    # the same caller-owned shape list is reused for a second call: it must not have been edited
+    check(shape_list == list(x0.shape), "fold/shape-argument-unchanged", lambda: f"shape list {list(x0.shape)} became {shape_list}")
+    f3 = B.fold(np.array(ref.unfold(x0, m)), m, shape_list)
+    same_bits(f3, x0, "fold/second-call-same-shape-list")
     return {"nontrivial": _nontrivial(case["shape"]), "labels": [f"order={len(case['shape'])}", f"dtype={case['dtype']}", f"lay={case['lay']}"]}
 
 
@@ -106,6 +111,11 @@ def o_partial(case):
     same_bits(u, want, "partial_unfold/map")
     f = B.partial_fold(u, m, x.shape, skip_begin=sb, skip_end=se)
     same_bits(f, x0, "partial_fold/roundtrip")
+    shape_list = list(x0.shape)
+    for k in range(2):   # list-typed shape reused across calls
+        fl = B.partial_fold(np.array(want), m, shape_list, skip_begin=sb, skip_end=se)
+        check(shape_list == list(x0.shape), "partial_fold/shape-argument-unchanged", lambda: f"shape list {list(x0.shape)} became {shape_list}")
+        same_bits(fl, x0, "partial_fold/list-shape-call-%d" % k)
     mid = case["shape"][sb:len(case["shape"]) - se]
     return {"nontrivial": _nontrivial(mid) or (se > 0 and _nontrivial(case["shape"][sb:])),
             "labels": [f"sb={sb}", f"se={se}", f"ravel={rv}"]}
@@ -120,6 +130,11 @@ def o_partial_vec(case):
     same_bits(v, want, "partial_tensor_to_vec/map")
     back = B.partial_vec_to_tensor(v, x.shape, skip_begin=sb, skip_end=se)
     same_bits(back, x0, "partial_vec_to_tensor/roundtrip")
+    shape_list = list(x0.shape)
+    for k in range(2):
+        bl = B.partial_vec_to_tensor(np.array(want), shape_list, skip_begin=sb, skip_end=se)
+        check(shape_list == list(x0.shape), "partial_vec_to_tensor/shape-argument-unchanged", lambda: f"shape list became {shape_list}")
+        same_bits(bl, x0, "partial_vec_to_tensor/list-shape-call-%d" % k)
     return {"nontrivial": _nontrivial(case["shape"]), "labels": [f"sb={sb}", f"se={se}"]}
 
 
